@@ -195,6 +195,9 @@ type Property struct {
 	Cases func(tier string) int
 	// Run executes case idx; panics are converted to violations by the framework.
 	Run func(c *C)
+	// EvalObs: observation counters whose sum is the number of evaluations
+	// (executions judged by the oracle) when one case performs several.
+	EvalObs []string
 	// Pinned cases are re-run in every tier whatever VERIF_SEED is (directed
 	// regressions for recorded findings): the case body sees this seed and index.
 	Pinned []PinnedCase
